@@ -75,6 +75,33 @@ func ruleDispatch(c *Ctx) {
 			c.check(okField && a.AssignOK, key+"/arm", a.Pos,
 				fmt.Sprintf("%s -> %s(command.%s) -> results[i][j]", k, a.Handler, a.CmdField),
 				fmt.Sprintf("case %s hands command.%s to %s (wants *%s) or does not store the result in results[i][j]", k, a.CmdField, a.Handler, h.CmdType))
+			// the handler runs unconditionally for every command of this kind: its call is a direct
+			// statement of the case clause, it is the only source of results[i][j], and nothing
+			// (continue / break / goto / cached result) bypasses it
+			direct := false
+			nResAssign := 0
+			bypass := ""
+			for _, st := range a.Clause.Body {
+				if as, ok := st.(*ast.AssignStmt); ok && len(as.Rhs) == 1 && as.Rhs[0] == ast.Expr(a.Call) {
+					direct = true
+				}
+			}
+			ast.Inspect(a.Clause, func(n ast.Node) bool {
+				switch x := n.(type) {
+				case *ast.AssignStmt:
+					for _, l := range x.Lhs {
+						if strings.HasPrefix(exprString(l), "results[") {
+							nResAssign++
+						}
+					}
+				case *ast.BranchStmt:
+					bypass = x.Tok.String() + " at " + c.P.pos(x.Pos())
+				}
+				return true
+			})
+			c.check(direct && nResAssign == 1 && bypass == "", key+"/always-executed", a.Pos,
+				"the handler runs for every command of this kind and is the only source of its result",
+				fmt.Sprintf("case %s does not run its handler unconditionally (handler call direct=%v, assignments to results[..]=%d, bypass=%q): a command can be acknowledged with a result that its own statement did not produce, at a position other than its submission position", k, direct, nResAssign, bypass))
 			// the result literal(s) of the handler carry this kind
 			rk := resultKinds(b, h)
 			okKind := len(rk) > 0
